@@ -909,7 +909,7 @@ func runSeqCase(cp casePlan, dir string, oplog *os.File) *caseResult {
 			s.doRange()
 		case x < 79:
 			s.doScan(false)
-		case x < 97:
+		case x < 98:
 			s.doLast()
 		default:
 			if s.be == "rocks" {
